@@ -257,7 +257,6 @@ func selfInitiatedReturns(m *termModel, fn *ssa.Function) []*ssa.Return {
 	return out
 }
 
-
 // ruleLoopNonBlocking (R13.1 / R11.5 / R12.7): the node loop never blocks outside its own select.
 func ruleLoopNonBlocking(c *Ctx, rule string) {
 	r := c.R
@@ -636,8 +635,10 @@ func runC11(c *Ctx) {
 					ok = false
 					why = "write(" + tgt + ", " + item + ") is not applied to every open channel with the received item"
 				}
-				// guards on the path to the write inside the range body
-				var guards []string
+				// guards on the path to the write inside the range body (each as the set of equivalent
+				// renderings of the condition that holds on the edge leading to the write)
+				var guards []map[string]bool
+				var guardStr []string
 				var guardOK = true
 				for _, iff := range ifsIn(run) {
 					if !reg[iff.Block()] {
@@ -651,22 +652,28 @@ func runC11(c *Ctx) {
 					if !t && !f {
 						continue
 					}
-					g := ex(iff.Cond)
+					idx := 0
 					if f {
-						g = "!" + g
+						idx = 1
 					}
-					guards = append(guards, g)
+					set := map[string]bool{}
+					for k, v := range condVariants(iff.Cond) {
+						if v == idx {
+							set[k] = true
+						}
+					}
+					guards = append(guards, set)
+					guardStr = append(guardStr, fmt.Sprint(keysOf(set)))
 				}
 				if kind == "chWriteAll" && len(guards) != 0 {
 					guardOK = false
-					why = "write-to-all is filtered by " + strings.Join(guards, ",")
+					why = "write-to-all is filtered by " + strings.Join(guardStr, ",")
 				}
 				if kind == "chWriteExcept" {
 					want := "(next(range(recv.channels))#1 != " + base + ".except)"
-					alt := "(" + base + ".except != next(range(recv.channels))#1)"
-					if len(guards) != 1 || (guards[0] != want && guards[0] != alt) {
+					if len(guards) != 1 || !guards[0][want] {
 						guardOK = false
-						why = "write-except must be guarded exactly by `ch != excluded`; guards found: " + strings.Join(guards, ",")
+						why = "write-except must be guarded exactly by `ch != excluded`; guards found: " + strings.Join(guardStr, ",")
 					}
 				}
 				ok = ok && guardOK
@@ -1208,11 +1215,10 @@ func checkReaderLoop(c *Ctx, rd *ssa.Function) {
 		asPath := false
 		for i := 0; i+1 < len(path); i++ {
 			if iff := blockIf(path[i]); iff != nil {
-				cond := ex(iff.Cond)
-				if cond == "("+errV+" != nil)" && path[i+1] == path[i].Succs[0] {
+				if tb, _, hit := succWhen(iff, "("+errV+" != nil)"); hit && path[i+1] == tb {
 					errPath = true
 				}
-				if strings.HasPrefix(cond, "errors.As("+errV+",") && path[i+1] == path[i].Succs[0] {
+				if tb, _, _, hit := succWhenFunc(iff, func(c string) bool { return strings.HasPrefix(c, "errors.As("+errV+",") }); hit && path[i+1] == tb {
 					asPath = true
 				}
 			}
